@@ -253,3 +253,158 @@ Proof.
       eapply (tick_xinv P r t rest s' cs); try eassumption;
         unfold log_idle; destruct (publishes_idle cs); reflexivity.
 Qed.
+
+(* ---------- waiting ---------- *)
+Local Arguments skipn : simpl never.
+Local Arguments firstn : simpl never.
+
+Lemma wait_xinv r c r2 : XInv r -> wait_step r c = Some r2 -> XInv r2.
+Proof.
+  intros X H. pose proof (wait_slots r c r2 (xi_slots _ X) H) as S2. unfold wait_step in H.
+  destruct (nth_error (donew r) c) as [[[[s w] e] rs]|] eqn:N.
+  - destruct (has_stop (cfg (st r)) rs) eqn:St; injection H as <-.
+    + (* the StopEvent short-cut: the other workers are cancelled; the run ends when the tick is processed *)
+      constructor; [exact S2|]. left. exists s, w, e, rs. cbn [set_wait tbuf st]. split; [apply in_app_iff; right; left; reflexivity|exact St].
+    + eapply XInv_same; [exact X|exact S2|reflexivity| |].
+      * intros x. pose proof (nth_split_cnt x _ _ _ N) as Sp. rewrite !held_cnt. cbn [set_wait pending runningw donew tbuf map].
+        rewrite bufkeys_app, !map_app, !cnt_app. unfold bufkeys at 2. cbn [flat_map tick_key app].
+        rewrite map_app, cnt_app in Sp. change (kd (s, w, e, rs)) with ((s, w) : Z * nat) in Sp. rewrite ?cnt_nil. lia.
+      * intros t I. cbn [set_wait tbuf]. apply in_app_iff. left. exact I.
+  - destruct (donew r) as [|d0 dr] eqn:Ed; [|discriminate H].
+    destruct (mailbox r) as [|t mb] eqn:Em.
+    + destruct (due (clock r) (wakeups r)) as [d rest] eqn:Du.
+      pose proof (due_nostep _ _ _ _ (so_wake _ (xi_slots _ X)) Du) as [Nd _].
+      destruct d as [|d1 dd].
+      * destruct (pending r) eqn:Ep; [discriminate H|]. injection H as <-.
+        eapply XInv_same; [exact X|exact S2|reflexivity| |].
+        -- intros x. rewrite !held_cnt. cbn [set_wait pending runningw donew tbuf map]. rewrite Ed, Ep, map_app, !cnt_app. cbn [map]. rewrite ?cnt_nil. lia.
+        -- intros t I. exact I.
+      * injection H as <-.
+        eapply XInv_same; [exact X|exact S2|reflexivity| |].
+        -- intros x. rewrite !held_cnt. cbn [set_wait pending runningw donew tbuf map].
+           rewrite Ed, bufkeys_app, (bufkeys_nostep _ Nd), map_app, !cnt_app. cbn [map]. rewrite ?cnt_nil. lia.
+        -- intros t I. cbn [set_wait tbuf]. apply in_app_iff. left. exact I.
+    + injection H as <-. pose proof (so_mail _ (xi_slots _ X)) as M. rewrite Em in M. inversion M; subst.
+      eapply XInv_same; [exact X|exact S2|reflexivity| |].
+      * intros x. rewrite !held_cnt. cbn [set_wait pending runningw donew tbuf map].
+        rewrite Ed, bufkeys_app, (bufkeys_nostep [t]) by (constructor; [assumption|constructor]).
+        rewrite map_app, !cnt_app. cbn [map]. rewrite ?cnt_nil. lia.
+      * intros t0 I. cbn [set_wait tbuf]. apply in_app_iff. left. exact I.
+Qed.
+
+Lemma rub_xinv P : forall f r, XInv r -> Runner.outcome (run_until_blocked P r f) = ORunning -> XInv (run_until_blocked P r f).
+Proof.
+  induction f as [|f IH]; intros r S; cbn [run_until_blocked].
+  - destruct (Runner.outcome r) eqn:O; intros H; try exact S. cbn in H. discriminate H.
+  - generalize (drain_xinv P tick_fuel r S). generalize (drain_ticks P r tick_fuel). intros r1 S1.
+    destruct (Runner.outcome r1) eqn:O1; intros H; try (rewrite O1 in H; discriminate H).
+    destruct (wait_step r1 0) as [r2|] eqn:Wt; [|exact (S1 eq_refl)].
+    apply IH; [eapply wait_xinv; [exact (S1 eq_refl)|exact Wt]|exact H].
+Qed.
+
+Definition XGood (r : rstate) : Prop := Runner.outcome r = ORunning -> XInv r.
+
+Lemma act_xgood P r a : action_ok a -> XGood r -> XGood (act P r a).
+Proof.
+  intros Ok G. unfold act in *. destruct (Runner.outcome r) eqn:O; try exact G.
+  specialize (G O). intros H. apply rub_xinv; [|exact H].
+  destruct a as [s w sends rs|t|dt]; cbn [action_ok] in Ok.
+  - destruct (take_worker s w (runningw r)) as [[e run']|] eqn:Tk; [|exact G].
+    destruct Ok as [Sd Rk].
+    assert (Slots_ok {| st := st r; tbuf := tbuf r; wakeups := wakeups r; wseq := wseq r; idle_pending := idle_pending r;
+                        mailbox := mailbox r ++ sends; pending := pending r; runningw := run'; donew := donew r ++ [(s, w, e, rs)];
+                        published := published r; ticklog := ticklog r; outcome := ORunning; clock := clock r; tlog := tlog r;
+                        idlelog := idlelog r; envlog := envlog r ++ sends |}) as S2.
+    { eapply Slots_sub; [exact (xi_slots _ G)|reflexivity| | | | |]; cbn [tbuf donew mailbox wakeups].
+      + intros x. rewrite !held_cnt. cbn [pending runningw donew tbuf]. rewrite map_app, cnt_app.
+        rewrite (take_worker_cnt x _ _ _ _ _ Tk). cbn [map]. unfold kd at 2. unfold kp at 3. cbn [fst snd]. lia.
+      + exact (so_tbuf _ (xi_slots _ G)).
+      + apply Forall_app. split; [exact (so_done _ (xi_slots _ G))|constructor; [exact Rk|constructor]].
+      + apply Forall_app. split; [exact (so_mail _ (xi_slots _ G))|]. rewrite forallb_forall in Sd. apply Forall_forall.
+        intros t Ht. apply is_add_nostep. apply Sd. exact Ht.
+      + exact (so_wake _ (xi_slots _ G)). }
+    eapply XInv_same; [exact G|exact S2|reflexivity| |].
+    + intros x. rewrite !held_cnt. cbn [pending runningw donew tbuf]. rewrite map_app, cnt_app.
+      rewrite (take_worker_cnt x _ _ _ _ _ Tk). cbn [map]. unfold kd at 2. unfold kp at 3. cbn [fst snd]. rewrite ?cnt_nil. lia.
+    + intros t I. exact I.
+  - assert (Slots_ok {| st := st r; tbuf := tbuf r; wakeups := wakeups r; wseq := wseq r; idle_pending := idle_pending r;
+                        mailbox := mailbox r ++ [t]; pending := pending r; runningw := runningw r; donew := donew r;
+                        published := published r; ticklog := ticklog r; outcome := ORunning; clock := clock r; tlog := tlog r;
+                        idlelog := idlelog r; envlog := envlog r ++ [t] |}) as S2.
+    { eapply Slots_sub; [exact (xi_slots _ G)|reflexivity| | | | |]; cbn [tbuf donew mailbox wakeups].
+      + intros x. rewrite !held_cnt. cbn [pending runningw donew tbuf]. lia.
+      + exact (so_tbuf _ (xi_slots _ G)).
+      + exact (so_done _ (xi_slots _ G)).
+      + apply Forall_app. split; [exact (so_mail _ (xi_slots _ G))|constructor; [apply is_add_nostep; exact Ok|constructor]].
+      + exact (so_wake _ (xi_slots _ G)). }
+    eapply XInv_same; [exact G|exact S2|reflexivity| |]; [intros x; rewrite !held_cnt; reflexivity|intros t0 I; exact I].
+  - assert (Slots_ok {| st := st r; tbuf := tbuf r; wakeups := wakeups r; wseq := wseq r; idle_pending := idle_pending r;
+                        mailbox := mailbox r; pending := pending r; runningw := runningw r; donew := donew r;
+                        published := published r; ticklog := ticklog r; outcome := ORunning; clock := clock r + dt; tlog := tlog r;
+                        idlelog := idlelog r; envlog := envlog r |}) as S2.
+    { eapply Slots_sub; [exact (xi_slots _ G)|reflexivity| | | | |]; cbn [tbuf donew mailbox wakeups].
+      + intros x. rewrite !held_cnt. cbn [pending runningw donew tbuf]. lia.
+      + exact (so_tbuf _ (xi_slots _ G)).
+      + exact (so_done _ (xi_slots _ G)).
+      + exact (so_mail _ (xi_slots _ G)).
+      + exact (so_wake _ (xi_slots _ G)). }
+    eapply XInv_same; [exact G|exact S2|reflexivity| |]; [intros x; rewrite !held_cnt; reflexivity|intros t0 I; exact I].
+Qed.
+
+(* a fresh run: no slot is taken in the start state *)
+Definition no_slots (s : state) : Prop := Forall (fun p => inprogress (snd p) = []) (workers s).
+
+Lemma no_slots_cnt s : no_slots s -> forall x, cnt x (slots_of s) = 0%nat.
+Proof.
+  unfold no_slots, slots_of. generalize (workers s). induction l as [|[k v] t IH]; intros F x; [reflexivity|].
+  inversion F as [|? ? E F']; subst. cbn [slots_of_ws flat_map fst snd]. fold (slots_of_ws t). unfold wids. cbn [snd] in E. rewrite E. cbn [map app].
+  apply IH. exact F'.
+Qed.
+
+Lemma start_xinv s e now : Keys_ok s -> Inv_state s -> no_slots s -> XInv (start s e now).
+Proof.
+  intros K Cp N. constructor; [apply start_slots; assumption|]. right. intros x.
+  rewrite (no_slots_cnt _ N). unfold held. reflexivity.
+Qed.
+
+Lemma run_xgood P s e now acts : Keys_ok s -> Inv_state s -> no_slots s -> Forall action_ok acts -> XGood (run_at P s e now acts).
+Proof.
+  intros K Cp N F. unfold run_at.
+  assert (XGood (run_until_blocked P (start s e now) loop_fuel)) as G0.
+  { intros H. apply rub_xinv; [apply start_xinv; assumption|exact H]. }
+  revert G0. generalize (run_until_blocked P (start s e now) loop_fuel).
+  induction F as [|a l Ok _ IH]; intros r G; cbn [fold_left]; [exact G|].
+  apply IH. apply act_xgood; assumption.
+Qed.
+
+From WF Require Proofs.RunnerConserve.
+
+(* the slots of the engine state are exactly the in-flight invocations, whenever the live run loop blocks *)
+Theorem run_slots_exact P s e now acts :
+  Keys_ok s -> Inv_state s -> no_slots s -> Forall action_ok acts ->
+  Runner.outcome (run_at P s e now acts) = ORunning ->
+  forall x, cnt x (held (run_at P s e now acts)) = cnt x (slots_of (st (run_at P s e now acts))).
+Proof.
+  intros K Cp N F O.
+  destruct (run_xgood P s e now acts K Cp N F O) as [_ [[n [k [ev [rs [I _]]]]]|X]]; [|exact X].
+  destruct (RunnerConserve.run_blocks_only_when_quiescent P s e now acts O) as [T0 _]. rewrite T0 in I. destruct I.
+Qed.
+
+(* at a blocked live state nothing is buffered or unharvested, so: every slot of every in_progress list belongs to a
+   worker that is running (started and not finished) *)
+Theorem run_every_slot_has_a_running_worker P s e now acts n w k :
+  Keys_ok s -> Inv_state s -> no_slots s -> Forall action_ok acts ->
+  Runner.outcome (run_at P s e now acts) = ORunning ->
+  zlookup n (workers (st (run_at P s e now acts))) = Some w -> In k (wids w) ->
+  exists ev, In (n, k, ev) (runningw (run_at P s e now acts)).
+Proof.
+  intros K Cp N F O L Hk.
+  pose proof (run_slots_exact P s e now acts K Cp N F O (n, k)) as X.
+  pose proof (run_slots_ok P s e now acts K Cp F O) as S.
+  destruct (RunnerConserve.run_blocks_only_when_quiescent P s e now acts O) as [T0 [_ [D0 [P0 _]]]].
+  unfold slots_of in X. rewrite (cnt_slots n k _ (so_keys _ S)), L in X.
+  assert (1 <= cn k (wids w))%nat as C1 by (unfold cn; apply count_occ_In; exact Hk).
+  rewrite held_cnt, T0, D0, P0 in X. cbn [map bufkeys flat_map] in X. rewrite !cnt_nil in X.
+  assert (In (n, k) (map kp (runningw (run_at P s e now acts)))) as I by (apply cnt_in; lia).
+  apply in_map_iff in I. destruct I as [[[n' k'] ev] [E I]]. unfold kp in E. cbn in E. inversion E; subst. exists ev. exact I.
+Qed.
